@@ -238,7 +238,7 @@ func (e *env) c04Build(t *rapid.T, rn string) c04Req {
 	obj := map[string]any{"schemaVersion": 2}
 	pick := func(label string, pool []string) (string, int) {
 		// a reference from this repository, or (mutation) from elsewhere
-		switch rapid.IntRange(0, 9).Draw(t, label+"Src") {
+		switch rapid.IntRange(0, 15).Draw(t, label+"Src") {
 		case 0:
 			q.desc = append(q.desc, label+":absent")
 			return dig("sha256", []byte("never pushed "+label)), 7
@@ -312,7 +312,7 @@ func (e *env) c04Build(t *rapid.T, rn string) c04Req {
 	obj["annotations"] = map[string]any{"salt": fmt.Sprint(rapid.IntRange(0, 5).Draw(t, "salt"))}
 	q.ct = mt
 	// structural mutations
-	for i, n := 0, rapid.SampledFrom([]int{0, 0, 1, 1, 2}).Draw(t, "nMut"); i < n; i++ {
+	for i, n := 0, rapid.SampledFrom([]int{0, 0, 0, 1, 1, 2}).Draw(t, "nMut"); i < n; i++ {
 		switch rapid.SampledFrom([]string{"dropConfig", "unknownField", "bodyTypeOther", "bodyTypeUnsupported", "bodyTypeEmpty", "ctOther", "ctDecorated", "ctAbsent", "ctJunk"}).Draw(t, "mutation") {
 		case "dropConfig":
 			delete(obj, "config")
@@ -345,7 +345,7 @@ func (e *env) c04Build(t *rapid.T, rn string) c04Req {
 	}
 	raw, _ := json.Marshal(obj)
 	// byte-level mutations
-	switch rapid.IntRange(0, 9).Draw(t, "byteMut") {
+	switch rapid.IntRange(0, 11).Draw(t, "byteMut") {
 	case 0:
 		cut := rapid.IntRange(0, len(raw)-1).Draw(t, "truncateAt")
 		raw = raw[:cut]
@@ -357,7 +357,7 @@ func (e *env) c04Build(t *rapid.T, rn string) c04Req {
 	q.raw = raw
 	// reference
 	body256 := dig("sha256", raw)
-	switch rapid.SampledFrom([]string{"tag", "tag", "tag", "digest", "digest", "tag+digest", "badTag", "wrongDigest", "badDigest", "tag+wrongDigest"}).Draw(t, "refKind") {
+	switch rapid.SampledFrom([]string{"tag", "tag", "tag", "tag", "digest", "digest", "digest", "tag+digest", "tag+digest", "badTag", "wrongDigest", "badDigest", "tag+wrongDigest"}).Draw(t, "refKind") {
 	case "tag":
 		q.ref = rapid.SampledFrom(c04Tags).Draw(t, "tag")
 	case "digest":
@@ -439,7 +439,7 @@ func c04Property(t *rapid.T, st *Stats) {
 			r := e.putManifest(p, nil)
 			e.logf("putManifest %s kind=%s ref=%s q=%s ct=%q mut=%v len=%d predicted ok=%v (%s) -> %d", rn, q.kind, shortTag(q.ref), short(q.qdig), q.ct, q.desc, len(q.raw), v.ok, v.why, r.code)
 			for _, m := range q.desc {
-				e.class("mut:" + strings.SplitN(m, "=", 2)[0])
+				e.class("mut:" + strings.FieldsFunc(m, func(r rune) bool { return r == '=' || r == '@' })[0])
 			}
 			if r.panicV != nil {
 				e.fail("put-panic", "manifest PUT panicked: %v", r.panicV)
